@@ -394,7 +394,7 @@ Proof.
   inversion Hs; subst. eapply step_flushlike; eauto.
 Qed.
 
-Lemma step_flush y t y' : G y t -> step m y AFlush = Some y' -> steps_ok y t y'.
+Lemma step_flush y t cx y' : G y t -> step m y (AFlush cx) = Some y' -> steps_ok y t y'.
 Proof.
   intros HG Hs. simpl in Hs.
   destruct (trigger_flush (Pst y)) as [[p' started]|] eqn:Ht; [|discriminate].
@@ -746,7 +746,7 @@ Proof.
 Qed.
 
 (* ---------- teardown ---------- *)
-Lemma step_tdbegin y t s y' : G y t -> step m y (ATdBegin s) = Some y' -> steps_ok y t y'.
+Lemma step_tdbegin y t s cx y' : G y t -> step m y (ATdBegin s cx) = Some y' -> steps_ok y t y'.
 Proof.
   intros HG Hs. cbv beta iota zeta delta [step] in Hs. fold c in Hs. set (x := Src y s) in *.
   destruct ((s <? nsrc c) && plug x && (pc x =? 0)) eqn:Hc; [|discriminate].
@@ -1044,7 +1044,7 @@ Proof.
   inversion Hs; subst. eapply stepX_flushlike; eauto.
 Qed.
 
-Lemma stepX_flush y t y' : G y t -> X y t -> step m y AFlush = Some y' -> stepsX y t y'.
+Lemma stepX_flush y t cx y' : G y t -> X y t -> step m y (AFlush cx) = Some y' -> stepsX y t y'.
 Proof.
   intros HG HX Hs. simpl in Hs.
   destruct (trigger_flush (Pst y)) as [[p' started]|] eqn:Ht; [|discriminate].
@@ -1452,7 +1452,7 @@ Proof.
   - rewrite supd_other in Hpc by exact E. rewrite (Ho s0 E). apply (ph_of_G _ _ HG). exact Hpc.
 Qed.
 
-Lemma stepX_tdbegin y t s y' : G y t -> X y t -> step m y (ATdBegin s) = Some y' -> stepsX y t y'.
+Lemma stepX_tdbegin y t s cx y' : G y t -> X y t -> step m y (ATdBegin s cx) = Some y' -> stepsX y t y'.
 Proof.
   intros HG HX Hs. cbv beta iota zeta delta [step] in Hs. fold c in Hs. set (x := Src y s) in *.
   destruct ((s <? nsrc c) && plug x && (pc x =? 0)) eqn:Hc; [|discriminate].
